@@ -8,6 +8,7 @@ import Klev.Proofs.HelpersOK
 import Klev.Proofs.FindByAgeMono
 import Klev.Proofs.TrimFind
 import Klev.Proofs.TrimsOK
+import Klev.Proofs.Witness
 namespace Klev.C15
 
 /-- The cursor loop under every helper: iterating Consume from `OffsetOldest` with any
@@ -316,6 +317,75 @@ theorem findByAge_mono_total (l : Log) (hinv : Inv l) (ht : TimesInv l)
   Klev.findByAge_mono_total l hinv ht hm hfab t hne
 
 end Klev.C15
+
+/-! ### Non-vacuity
+
+The theorems at the witness log `Witness.wL` (segments `0: [0, 1]`, `2: [2, 4]`, `5: [5, 6]`,
+`8: [8]`; times 10 20 | 20 30 | 30 40 | 50; read-write; `Inv`, `MemIdx`, `TimesInv`, `Monotone`,
+`FirstAtBase` obtained from the reachability theorems), the same files through the read-only
+handle `Witness.wRO`, and the extended history `Witness.xs` (`Klev/Proofs/Witness.lean`). -/
+section NonVacuity
+open Klev Klev.Witness Klev.Helpers
+
+example := Klev.C15.scan_visits_all wL wL_inv 2 (by decide) 9 (by decide)
+example := Klev.C15.findByOffset_ok wL wL_inv 5 (by decide)
+example := Klev.C15.findByOffset_ok wL wL_inv offsetNewest (by decide)
+example := Klev.C15.findByAge_prefix wL wL_inv 30
+example := Klev.C15.findByOffset_eq wL wL_inv 5 (by decide)
+example := Klev.C15.findByOffset_panic wL wL_inv (-4) (by decide)
+example := Klev.C15.findByCount_ok wL wL_inv wL_memIdx 3
+example := Klev.C15.findByCount_eq wL wL_inv wL_memIdx 3
+example := Klev.C15.findBySize_ok wL wL_inv wL_memIdx 400
+example := Klev.C15.findBySize_eq wL wL_inv wL_memIdx 400
+example := Klev.C15.sizePrefix_minimal (sizeOf wL) 400 (abs wL).live 553 2 (by decide)
+example := Klev.C15.findByAge_res wL wL_inv 30
+example := Klev.C15.findByAge_ok_of_ok wL wL_inv 30 [0, 1, 2, 4] (by decide)
+example := Klev.C15.trimByOffsetMulti_bound wL wL_inv wL_rw 5 (by decide)
+example := Klev.C15.trimByOffsetMulti_newest wL wL_inv wL_rw
+example := Klev.C15.trimByCountMulti_bound wL wL_inv wL_rw wL_memIdx 3
+example := Klev.C15.trimBySizeMulti_bound wL wL_inv wL_rw wL_memIdx 400
+example := Klev.C15.thenDelete_any wL (wL.get 0).1 wL_inv (Klev.get_loaded wL wL_inv 0) false
+  [⟨4, 30, [6], []⟩, ⟨5, 30, [4], [5]⟩] (by decide)
+example := Klev.C15.trimByOffset_any wL wL_inv 5 (by decide) false
+example := Klev.C15.trimByOffset_any wRO wRO_inv 5 (by decide) true
+example := Klev.C15.trimByCount_any wL wL_inv wL_memIdx 3 false
+example := Klev.C15.trimByCount_any wRO wRO_inv wRO_memIdx 3 true
+example := Klev.C15.trimBySize_any wL wL_inv wL_memIdx 400 false
+example := Klev.C15.trimByAge_any wL wL_inv 30 true
+example := Klev.C15.stat_reachable oo rfl ops
+example := Klev.C15.finds_ok_reachable oo rfl ops
+example := Klev.C15.findByAge_mono wL wL_inv wL_timesInv wL_mono wL_fab 30 [0, 1, 2, 4] (by decide)
+example := Klev.C15.findByAge_mono_run oo xs xs_same rfl xs_mono 30 l0 open_l0 [0, 1, 2, 4] (by decide)
+example := Klev.C15.findByAge_mono_total wL wL_inv wL_timesInv wL_mono wL_fab 30 (Or.inl (by decide))
+
+-- evaluated: the selections …
+example : (findByOffset wL 5).2 = .ok [0, 1, 2, 4] ∧ (findByOffset wL offsetNewest).2 = .ok [0, 1, 2, 4, 5, 6, 8] ∧
+    (findByOffset wL offsetOldest).2 = .ok [] ∧ (findByOffset wL (-4)).2 = .err .panic := by decide
+example : (findByCount wL 3).2 = .ok [0, 1, 2, 4] ∧ (findByCount wL 7).2 = .ok [] ∧
+    (findByCount wL (-1)).2 = .ok [0, 1, 2, 4, 5, 6, 8] := by decide
+-- Stat size 553; Size(m) = 70 (69 for the value-less one): 553 → 483 → 413 → 343 < 400
+example : (findBySize wL 400).2 = .ok [0, 1, 2] ∧ (findBySize wL 554).2 = .ok [] ∧
+    (findBySize wL 0).2 = .ok [0, 1, 2, 4, 5, 6, 8] := by decide
+-- the bound of `FindByAge 30` is the first message at time 30 (offset 4); the scan ends with the
+-- chunk that holds it, so offset 4 (time 30) is selected and offset 5 (also time 30, next segment)
+-- is not: nothing newer than 30 is selected, everything older is
+example : (findByAge wL 30).2 = .ok [0, 1, 2, 4] ∧ (findByAge wL 20).2 = .ok [0, 1] ∧
+    (findByAge wL 31).2 = .ok [0, 1, 2, 4, 5] ∧ (findByAge wL 100).2 = .ok [0, 1, 2, 4, 5, 6, 8] ∧
+    (findByAge wL 5).2 = .ok [] := by decide
+-- … and the trims
+example : (thenDelete true (findBySize wL 400)).2.err = none ∧
+    (thenDelete true (findBySize wL 400)).2.msgs.map (·.off) = [0, 1, 2] ∧
+    (abs (thenDelete true (findBySize wL 400)).1).live.map (·.off) = [4, 5, 6, 8] ∧
+    ((thenDelete true (findBySize wL 400)).1.stat).2 = .ok ⟨3, 4, 327⟩ := by decide
+-- single mode: one `Delete`, one segment
+example : (thenDelete false (findByOffset wL 5)).2.msgs.map (·.off) = [0, 1] ∧
+    (abs (thenDelete false (findByOffset wL 5)).1).live.map (·.off) = [2, 4, 5, 6, 8] := by decide
+example : (thenDelete true (findByCount wL 3)).2.msgs.map (·.off) = [0, 1, 2, 4] ∧
+    (abs (thenDelete true (findByCount wL 3)).1).live.map (·.off) = [5, 6, 8] := by decide
+example : (thenDelete true (findByCount wRO 3)).2.err = some .readonly ∧
+    (abs (thenDelete true (findByCount wRO 3)).1).live = (abs wL).live := by decide
+
+end NonVacuity
 
 #print axioms Klev.C15.scan_visits_all
 #print axioms Klev.C15.findByOffset_ok
